@@ -633,7 +633,7 @@ func c04StoreBacked(c *core.Ctx, impl string) {
 // than the service name, a strict prefix of it, sharing a prefix with it - reach
 // the service; each gets exactly one response and the service stays up.
 func c04WideOwnership(c *core.Ctx, name string) {
-	for _, own := range [][2][]string{{nil, {">"}}, {{">"}, {">"}}, {{name + ".>", "auth.>"}, {"*", "*.>"}}} {
+	for _, own := range [][2][]string{{nil, {">"}}, {{">"}, {">"}}, {{name + ".>", "auth.>"}, {"*", "*.>"}}, {{name, name + ".>"}, nil}} {
 		tbl := &scriptTable{}
 		rg := newRig(name, func(s *res.Service) {
 			scriptedService(s, tbl, nil)
@@ -652,6 +652,13 @@ func c04WideOwnership(c *core.Ctx, name string) {
 				before := atomic.LoadInt64(&doneCount)
 				inbox, _, delivered := rg.send(subj, []byte(`{"cid":"abc","token":null}`))
 				if delivered == 0 {
+					if own[1] == nil && strings.HasPrefix(subj, "access."+name+".m.") {
+						// access ownership left at its default: the own name space is served
+						c.Violation("C04/no-response:access-default-with-explicit-resources", fmt.Sprintf("service %q with SetOwnedResources(%v, nil) and an access handler: request %s reaches no subscription", name, own[0], subj),
+							map[string]interface{}{"service": name, "owned_resources": own[0], "owned_access": nil, "subject": subj, "subscriptions": subjectsOf(rg.C.Subs())})
+						rg.stop()
+						return
+					}
 					continue // outside what this configuration owns
 				}
 				c.Eval(1)
